@@ -20,7 +20,7 @@ use futures_util::lock::{Mutex as AsyncMutex, MutexGuard};
 use futures_util::stream::{FuturesUnordered, Stream, StreamExt, once};
 use futures_util::{
     Future, FutureExt,
-    future::{BoxFuture, Shared},
+    future::{self, BoxFuture, Either, Shared},
 };
 use parking_lot::Mutex;
 #[cfg(feature = "serde")]
@@ -357,7 +357,19 @@ impl<P: ConnectionProvider> PoolState<P> {
             // error) — used to avoid double-penalizing them.
             let mut completed = SmallVec::<[IpAddr; 2]>::new();
 
-            while let Some((server, result)) = requests.next().await {
+            // Bound the batch by what is left of the end-to-end deadline: a round that starts
+            // shortly before the deadline must not run for another full per-connection timeout.
+            let mut out_of_time =
+                <<P as ConnectionProvider>::RuntimeProvider as RuntimeProvider>::Timer::delay_for(
+                    deadline.saturating_duration_since(Instant::now()),
+                );
+
+            while let Some((server, result)) =
+                match future::select(requests.next(), &mut out_of_time).await {
+                    Either::Left((next, _)) => next,
+                    Either::Right(_) => return Err(NetError::Timeout),
+                }
+            {
                 completed.push(server.ip());
                 let e = match result {
                     Ok(response) if response.truncation => {
